@@ -171,7 +171,8 @@ def dict_mismatch(got, exp, skip=()):
 
 def reg_st(kind: str):
     if kind == "u32":
-        return st.sampled_from([0, 1, 2**31 - 1, 2**31, 2**32 - 1, 1000, 999, 123456789]) | st.integers(0, 2**32 - 1)
+        # boundaries, and values whose octets mean something to another layer: '(' ')' '/' '!' LF, 7E/7D, COSEM tags, all-ASCII
+        return st.sampled_from([0, 1, 2**31 - 1, 2**31, 2**32 - 1, 1000, 999, 123456789, 0x00280029, 0x28292829, 0x2F414243, 0x210D0A2F, 0x7E7E7E7E, 0x7D5E7D5D, 0x0A0D0A0D, 0x09060100, 0x02020F00, 0x30303030]) | st.integers(0, 2**32 - 1)
     if kind == "u16":
         return st.sampled_from([0, 1, 2**15 - 1, 2**15, 2**16 - 1, 2300]) | st.integers(0, 2**16 - 1)
     if kind == "i16":
@@ -405,8 +406,12 @@ def kamstrup_list_st(draw):
             items.append((code, name, "u16", draw(reg_st("u16"))))
         else:
             items.append((code, name, "u32", draw(reg_st("u32"))))
+    if draw(st.integers(0, 3)) == 3:
+        items = list(draw(st.permutations(items)))  # the statement fixes no element order (only: list version first)
     pad_mode = draw(st.sampled_from(["none", "none", "some", "all"]))
     pads = [0 if pad_mode == "none" else (draw(st.integers(0, 6)) if pad_mode == "some" else draw(st.integers(1, 6))) for _ in range(len(items) + 1)]
+    if draw(st.integers(0, 15)) == 15:
+        pads[draw(st.integers(0, len(pads) - 1))] = draw(st.sampled_from([200, 1000, 1900, 2500]))  # a long run of null-data
     list_ver = draw(st.sampled_from(["Kamstrup_V0001"]) | ascii_text_st)
     return (layout, list_ver, items, pads, draw(dt_spec_st()), draw(st.booleans()))
 
